@@ -461,7 +461,19 @@ class StmtMixin:
         c = ctx.contract
         if c is None or ordn is None:
             return None, ordn
-        return c.loops.get(ordn), ordn
+        spec = c.loops.get(ordn)
+        if spec is None:
+            # loops may also be keyed by a fragment of their header text (robust against edits elsewhere)
+            try:
+                head = ast.unparse(node.iter) if isinstance(node, ast.For) else ast.unparse(node.test)
+                tgt = ast.unparse(node.target) if isinstance(node, ast.For) else ''
+            except Exception:
+                head, tgt = '', ''
+            full = f'for {tgt} in {head}' if isinstance(node, ast.For) else f'while {head}'
+            for k_, v_ in c.loops.items():
+                if isinstance(k_, str) and k_ in full:
+                    return v_, ordn
+        return spec, ordn
 
     def x_While(self, s, st):
         spec, ordn = self.loop_spec(s)
@@ -493,6 +505,25 @@ class StmtMixin:
         h = st.copy()
         pre = st.snapshot()
         recv_only = set(getattr(assigned_names, 'last_receivers', ()))
+        # effects of local closures called in the body (nested defs mutating containers of this frame)
+        for n in ast.walk(ast.Module(body=list(s.body), type_ignores=[])):
+            if isinstance(n, ast.Call) and isinstance(n.func, ast.Name) and n.func.id in st.env:
+                cv = st.env[n.func.id]
+                if cv.ty is FUN and isinstance(cv.t, Closure) and not isinstance(cv.t.node, ast.Lambda):
+                    cn, cf = assigned_names(cv.t.node.body)
+                    crecv = set(getattr(assigned_names, 'last_receivers', ()))
+                    clocal = {a.arg for a in cv.t.node.args.args} | {x.id for x in ast.walk(cv.t.node)
+                                                                    if isinstance(x, ast.Name) and isinstance(x.ctx, ast.Store)}
+                    for nm in crecv - clocal:
+                        names.add(nm)
+                    fields |= cf
+        if '$alloc' in h.ghost:
+            # allocation inside the body: the allocated set only grows
+            old_a = h.ghost['$alloc']
+            new_a = fresh(old_a.ty, 'alloc')
+            r_ = z3.Const(fresh_name('r'), RefSort())
+            h.ghost['$alloc'] = new_a
+            h.assume(z3.ForAll([r_], z3.Implies(z3.Select(old_a.t, r_), z3.Select(new_a.t, r_))))
         for nm in sorted(names):
             if nm == idx_name:
                 continue
@@ -580,7 +611,7 @@ class StmtMixin:
                                     self.oblige('loop-frame', e, ev_.t == hv.t, s.lineno,
                                                 f'local {n_} unchanged along the back edge', tag=f'{tag}.{n_}')
                             for g_, gv in e.ghost.items():
-                                if g_ in modset or g_ not in h.ghost:
+                                if g_ in modset or g_ not in h.ghost or g_ == '$alloc':
                                     continue
                                 if not z3.eq(gv.t, h.ghost[g_].t):
                                     self.oblige('loop-frame', e, gv.t == h.ghost[g_].t, s.lineno,
